@@ -115,7 +115,9 @@ def gen_opts(rng, focus):
         o["symbolic_links"] = True
     tr_odds = {"C01": (1, 5), "C03": (1, 6), "C06": (1, 10)}[focus]
     if rng.chance(*tr_odds):
-        o["transform"] = rng.choice(TRANSFORMS[:-1]) [0] if rng.chance(9, 10) else "false"
+        r = rng.below(10)
+        o["transform"] = (rng.choice(TRANSFORMS[:-1])[0] if r < 7 else "cat $IN" if r == 7 else
+                          "failsome.sh " + rng.choice(FAIL_MODES) if r == 8 else "false")
     if rng.chance(1, 12):
         o["min_size"] = rng.choice([1, 3, 4096, 4097])
     if rng.chance(1, 12):
@@ -237,6 +239,8 @@ def gen_spec(rng, focus, small=False):
     spec = {"dirs": dirs, "files": files, "links": links, "symlinks": symlinks, "contents": contents,
             "roots": spelled, "opts": opts, "env": {"disk_kind": kind, "mounts": mounts},
             "probes": [[1, 65536], [0, 65535], [0, 65537], [3, 131072]] if rng.chance(1, 3) else []}
+    if rng.chance(1, 6):
+        add_boundary_twins(rng, spec)
     return spec
 
 
@@ -334,7 +338,8 @@ def materialise(spec, where):
                 os.symlink(os.path.join(tdir, p), ln)
         paths.append(spell(p, how, tdir))
     env = {"disk_kind": spec["env"].get("disk_kind"),
-           "mounts": ",".join("%s=%s" % (k, os.path.join(tdir, d)) for k, d in spec["env"].get("mounts", [])) or None}
+           "mounts": ",".join("%s=%s" % (k, os.path.join(tdir, d)) for k, d in spec["env"].get("mounts", [])) or None,
+           "path_prepend": HELPERS["dir"]}
     return {"base_dir": tdir, "paths": paths, "opts": spec["opts"], "env": env, "tmp": tmp,
             "probes": spec.get("probes", []), "nd": spec.get("nd", 0)}
 
@@ -363,8 +368,11 @@ def parse_groups(line):
 def transform_output(cmd, path, cache):
     k = (cmd, path)
     if k not in cache:
+        env = dict(os.environ, IN=os.fsdecode(path))
+        if HELPERS["dir"]:
+            env["PATH"] = HELPERS["dir"] + ":" + env.get("PATH", "")
         with open(path, "rb") as fh:
-            p = subprocess.run(["sh", "-c", cmd], stdin=fh, stdout=subprocess.PIPE, stderr=subprocess.DEVNULL)
+            p = subprocess.run(["sh", "-c", cmd], stdin=fh, stdout=subprocess.PIPE, stderr=subprocess.DEVNULL, env=env)
         cache[k] = p.stdout if p.returncode == 0 else None
     return cache[k]
 
@@ -546,6 +554,32 @@ def run_grp_lines(lines, prefix):
     return [x for p in parts for x in p]
 
 
+HELPER_SCRIPTS = {
+    # opens its input, waits, then copies it: widens the window in which a shared temp copy would be overwritten
+    "slowcat.sh": '#!/bin/sh\n[ -n "$1" ] || exit 0\nexec 3<"$1" || exit 1\nsleep 0.03\ncat <&3\n',
+    # copies stdin to stdout, but for inputs whose first byte is odd it fails in the way named by $1
+    "failsome.sh": '#!/bin/sh\nt=$(mktemp) || exit 2\ncat > "$t"\nfirst=$(head -c 1 "$t" | od -An -tu1 | tr -d " \\n")\n'
+                   'if [ -n "$first" ] && [ $((first % 2)) -eq 1 ]; then\n  case "$1" in\n'
+                   '    exit1_partial) head -c 3 "$t"; rm -f "$t"; exit 1;;\n    exit1_none) rm -f "$t"; exit 1;;\n'
+                   '    segv_partial) head -c 3 "$t"; rm -f "$t"; kill -SEGV $$;;\n    segv_none) rm -f "$t"; kill -SEGV $$;;\n'
+                   '    kill9_partial) head -c 3 "$t"; rm -f "$t"; kill -9 $$;;\n  esac\nfi\ncat "$t"; rm -f "$t"\n',
+}
+FAIL_MODES = ["exit1_partial", "exit1_none", "segv_partial", "segv_none", "kill9_partial"]
+HELPERS = {"dir": None}
+
+
+def install_helpers(scratch):
+    d = os.path.join(scratch, "helpers")
+    os.makedirs(d, exist_ok=True)
+    for name, body in HELPER_SCRIPTS.items():
+        pth = os.path.join(d, name)
+        with open(pth, "w") as f:
+            f.write(body)
+        os.chmod(pth, 0o755)
+    HELPERS["dir"] = d
+    return d
+
+
 class Engine:
     def __init__(self, ctx, focus):
         self.ctx = ctx
@@ -553,6 +587,7 @@ class Engine:
         self.model = core.build_model("G")
         core.build_harness(["grp"])
         self.seq = 0
+        install_helpers(ctx.scratch)
 
     def run_specs(self, specs, keep=False):
         """materialise + run implementation and model for a batch; returns list of result dicts"""
@@ -824,6 +859,8 @@ def process_results(ctx, eng, results, do_search=True):
                 rr = eng.run_specs([small])[0]
                 if not still(rr):
                     rr = r
+                else:   # report the failure of the kind that was shrunk first
+                    rr["oracle_bad"] = [x for x in rr["oracle_bad"] if x["kind"] == kind] + [x for x in rr["oracle_bad"] if x["kind"] != kind]
             oo = rr["spec"]["opts"]
             ctx.violation({"kind": kind, "transform": bool(oo.get("transform")), "k11": k11_pred(rr["spec"]),
                            "under": bool(oo.get("unique") or oo.get("rf_under") is not None),
@@ -908,6 +945,8 @@ def cli_args(case, stdin_roots=False):
 def run_cli(fclones_bin, case, stdin_roots=False):
     """the same case through the command-line binary; returns the report body in the canonical form or 'ERR ..'"""
     env = {"TMPDIR": case["tmp"], "XDG_CACHE_HOME": case["tmp"] + "/cache"}
+    if case["env"].get("path_prepend"):
+        env["PATH"] = case["env"]["path_prepend"] + ":" + os.environ.get("PATH", "")
     if case["env"].get("disk_kind"):
         env["FCLONES_VERIF_DISK_KIND"] = case["env"]["disk_kind"]
     if case["env"].get("mounts"):
@@ -926,13 +965,77 @@ def run_cli(fclones_bin, case, stdin_roots=False):
     return gs
 
 
+def add_boundary_twins(rng, spec):
+    """component-boundary twins: two DISTINCT paths of one inode whose component bytes concatenate to the same string
+    (a/bc vs ab/c, x/yz vs xy/z, a/b/c vs ab/c) + a copy elsewhere so that the class is reported; a path hash that loses
+    component boundaries makes deduplicate (keyed by inode, unique_by path.hash128()) drop one of them"""
+    root = rng.choice([p for p, _ in spec["roots"] if not any(f["p"] == p for f in spec["files"])] or [spec["dirs"][0]])
+    kind = rng.choice([("a/bc", "ab/c"), ("x/yz", "xy/z"), ("a/b/c", "ab/c"), ("q/rs.txt", "qr/s.txt")])
+    tag = "tw%d" % rng.below(1000)
+    base = root + "/" + tag
+    p1, p2 = base + "/" + kind[0], base + "/" + kind[1]
+    for p in (p1, p2):
+        d = p.rsplit("/", 1)[0]
+        parts = d.split("/")
+        for i in range(1, len(parts) + 1):
+            dd = "/".join(parts[:i])
+            if dd not in spec["dirs"]:
+                spec["dirs"].append(dd)
+    cid = "twin_%s" % tag
+    n = rng.choice([1, 100, 4096, 5000, 20000])
+    spec["contents"][cid] = {"fam": rng.below(1000), "len": n, "muts": []}
+    spec["files"].append({"p": p1, "c": cid})
+    spec["links"].append({"p": p2, "to": p1})
+    spec["files"].append({"p": base + "/copy", "c": cid})
+    return spec
+
+
+def gen_in_transform_spec(rng, failing=False):
+    """trees for the transform dimension: the SAME base names in several directories holding different contents of equal
+    length (and some true duplicates), SSD pin (multi-threaded sequential pool); transform through `$IN` (temp copy) or,
+    with failing=True, through a program that fails for inputs whose first byte is odd"""
+    spec = gen_spec(rng, "C01", small=True)
+    dirs = ["r0/d%d" % i for i in range(2 + rng.below(3))]
+    spec["dirs"] = ["r0"] + dirs
+    spec["roots"] = [["r0", "plain"]]
+    spec["links"], spec["symlinks"], spec["files"], spec["contents"] = [], [], [], {}
+    fam = rng.below(1000)
+    n = rng.choice([1, 3, 64, 1000, 4096, 5000, 70000])
+    base = base_bytes(fam)
+    names = ["n%d" % i for i in range(2 + rng.below(3))]
+    for ni, name in enumerate(names):
+        for di, d in enumerate(dirs):
+            # variant per (name, dir): equal to the first directory's content, or one byte changed (often the first byte)
+            if di == 0 or rng.chance(1, 3):
+                muts = [[0, (base[0] + 2 * ni + 1) % 256]] if (failing and ni % 2 == 1 and n > 0) else []
+            else:
+                pos = 0 if rng.chance(1, 2) else rng.below(max(n, 1))
+                muts = [[pos, (base[pos] + 1 + di) % 256]] if n > 0 else []
+            cid = "t%d_%d" % (ni, di)
+            spec["contents"][cid] = {"fam": fam, "len": n, "muts": muts}
+            spec["files"].append({"p": d + "/" + name, "c": cid})
+    o = spec["opts"]
+    o.update({"isolate": False, "symbolic_links": False, "min_size": 0, "max_size": None, "cache": False,
+              "rf_over": rng.choice([None, 0, 1]), "rf_under": None, "unique": False, "match_links": False})
+    if failing:
+        o["transform"] = "failsome.sh " + rng.choice(FAIL_MODES)
+    else:
+        o["transform"] = rng.choice(["cat $IN", "slowcat.sh $IN", "slowcat.sh $IN"])
+    o["threads"] = rng.choice([None, [["ssd", 8, 8]], [["default", 8, 8]]])
+    spec["env"] = {"disk_kind": "ssd", "mounts": []}
+    spec["probes"] = []
+    return spec
+
+
 def gen_stdin_spec(rng, focus):
     """trees for the input-mode dimension: roots that repeat, nest and overlap, files given as roots next to the
     directory that holds them (what `find ... | fclones group --stdin` produces)"""
     s = gen_spec(rng, focus, small=True)
     o = s["opts"]
     o["isolate"] = False           # --isolate needs the roots on the command line (config.rs validate)
-    o["transform"] = o["transform"] if rng.chance(1, 4) else None
+    # no transform together with --stdin: Transform::new probes the program by spawning it with INHERITED stdin/stdout, so
+    # the probe can swallow the root list and write into the report (racy; recorded in notes/G.md as a finding)
+    o["transform"] = None
     roots = [p for p, _ in s["roots"]]
     dirs = [d for d in s["dirs"] if d != "out"]
     extra = []
@@ -948,6 +1051,8 @@ def gen_stdin_spec(rng, focus):
         f = rng.choice(s["files"])["p"]
         extra += [f, f]                                                   # the same file twice
     s["roots"] = [[p, "plain"] for p in rng.shuffle(roots + extra)]
+    if rng.chance(1, 2):
+        add_boundary_twins(rng, s)
     return s
 
 
